@@ -287,6 +287,31 @@ def shard_random(shard, nshards, tier, seed, scratch):
                 d.pop('payload', None)
                 big_failures.append({'leg': 'large', 'clause': 'large-' + v.clause, 'detail': d, 'case': {'table': t2[:3], 'delim': dlm, 'policy': policy, 'line_sep': '\n', 'encoding': enc, 'note': 'first 3 of %d records' % n}})
                 break
+    # fields with very many line breaks (one quoted_rfc record spanning thousands of physical lines), very long fields and very wide records
+    if not big_failures:
+        n_breaks = [999, 1000, 1001, 1500][shard % 4] if tier == 'quick' else 1000 + 997 * (shard + 1)
+        shapes = [('many-breaks-LF', [['id', '\n'.join('l%d' % i for i in range(n_breaks + 1)), 'x'], ['a', 'b', 'c']]),
+                  ('many-breaks-with-quotes', [['"', '\n'.join('"q%d",' % i for i in range(n_breaks + 1)), ''], ['a', 'b', 'c']]),
+                  ('long-field', [['x' * 70000 + '"' + 'y' * 70000, 'b'], ['c', 'd']]),
+                  ('wide-record', [['f%d' % i for i in range(3000)], ['"'] * 3000])]
+        for name, table in shapes:
+            for sep in ('\n', '\r\n'):
+                for enc in ((None, 'utf-8') if shard % 2 else ('utf-8', 'latin-1')):
+                    try:
+                        check_table(table, ',' if name != 'wide-record' else '::', 'quoted_rfc', sep, enc, None)
+                        stats.bump('large-shape-' + name)
+                        stats.evaluations += 1
+                        stats.nontrivial_counted += 1
+                    except Violation as v:
+                        d = {k: v.detail.get(k) for k in ('delim', 'policy', 'line_sep', 'encoding', 'warnings', 'error')}
+                        d['shape'] = name
+                        d['line_breaks_in_field'] = n_breaks if 'breaks' in name else 0
+                        big_failures.append({'leg': 'large', 'clause': 'large-' + v.clause, 'detail': d, 'case': {'kind': 'large-shape', 'name': name, 'n_breaks': n_breaks, 'line_sep': sep, 'encoding': enc}})
+                        break
+                if big_failures:
+                    break
+            if big_failures:
+                break
     if big_failures:
         return {'stats': stats.export(), 'failures': big_failures[:1]}
     fails = run_hypothesis(st_case(), lambda c: check_case(c, stats, scratch), max(1, total // nshards), seed, shrink_budget=300 if tier == 'quick' else 2000)
@@ -296,6 +321,14 @@ def shard_random(shard, nshards, tier, seed, scratch):
 
 
 def replay(case, clause=None):
+    if case.get('kind') == 'large-shape':
+        nb = case['n_breaks']
+        table = {'many-breaks-LF': [['id', '\n'.join('l%d' % i for i in range(nb + 1)), 'x'], ['a', 'b', 'c']],
+                 'many-breaks-with-quotes': [['"', '\n'.join('"q%d",' % i for i in range(nb + 1)), ''], ['a', 'b', 'c']],
+                 'long-field': [['x' * 70000 + '"' + 'y' * 70000, 'b'], ['c', 'd']],
+                 'wide-record': [['f%d' % i for i in range(3000)], ['"'] * 3000]}[case['name']]
+        check_table(table, ',' if case['name'] != 'wide-record' else '::', 'quoted_rfc', case['line_sep'], case['encoding'], None)
+        return
     import tempfile, shutil
     d = tempfile.mkdtemp(prefix='vf_c10_')
     try:
